@@ -8,7 +8,7 @@ use crate::Array;
 // Contract (C01): BooleanBuilder after append_value(a); append_null(); append_slice([b, c]);
 // append_option(o) holds the model [Some(a), None, Some(b), Some(c), o]: len() == 5, value bit i == the
 // value on valid slots, validity bit i set <=> slot i is Some.
-// @unit name=bbuilder_state_model props=C01 kind=bounded bound=schedule_of_4_appends_5_slots fns=BooleanBuilder::append_value,BooleanBuilder::append_null,BooleanBuilder::append_slice,BooleanBuilder::append_option,BooleanBuilder::values_slice,BooleanBuilder::validity_slice
+// @unit name=bbuilder_state_model props=C01 kind=bounded bound=schedule_of_4_appends_5_slots fns=BooleanBuilder::append_value,BooleanBuilder::append_null,BooleanBuilder::append_slice,BooleanBuilder::append_option,BooleanBuilder::values_slice,BooleanBuilder::validity_slice tier=quick
 #[kani::proof]
 #[kani::unwind(10)]
 #[kani::stub(alloc::fmt::format, stub_format)]
@@ -37,7 +37,7 @@ fn bbuilder_state_model() {
 }
 
 // Contract (C01, stretch): finish() after the same schedule returns a BooleanArray equal to the model.
-// @unit name=bbuilder_finish_model props=C01 kind=bounded bound=schedule_of_4_appends_5_slots fns=BooleanBuilder::finish tier=thorough timeout=900 mem=10 note=not_confirmed_at_checkpoint
+// @unit name=bbuilder_finish_model props=C01 kind=bounded bound=schedule_of_4_appends_5_slots fns=BooleanBuilder::finish timeout=900 mem=10 tier=thorough note=not_confirmed_not_run
 #[kani::proof]
 #[kani::unwind(10)]
 #[kani::stub(alloc::fmt::format, stub_format)]
